@@ -14,7 +14,7 @@
 import ast
 
 from sa.canon import Canon, f_show, f_equiv, A, f_not
-from sa.interp import Interp
+from sa.interp import Interp, C
 from .order import taint, HASH
 from .c12 import mentions
 
@@ -181,21 +181,31 @@ def run(ctx, chk):
            not carried, f"fields read from a previous call: {sorted(carried)}", gen.module.path)
     # make_benchmark_scenario: params['seed'] store before the generate call
     mb = repo.func("nasim.scenarios", "make_benchmark_scenario")
-    ok = False
-    for n in ast.walk(mb.node):
-        if isinstance(n, ast.If):
-            body = n.body
-            st = [i for i, x in enumerate(body) if isinstance(x, ast.Assign)
-                  and isinstance(x.targets[0], ast.Subscript)
-                  and isinstance(x.targets[0].slice, ast.Constant)
-                  and x.targets[0].slice.value == "seed"
-                  and isinstance(x.value, ast.Name) and x.value.id == "seed"]
-            rd = [i for i, x in enumerate(body) if isinstance(x, ast.Return)
-                  and "generate_scenario" in ast.unparse(x)]
-            if st and rd and st[0] < rd[0]:
-                ok = True
-    chk.ob("C14.no-carry", "make_benchmark_scenario stores params['seed'] = seed before generating",
-           ok, "", mb.module.path)
+    GS = "nasim.scenarios:generate_scenario"
+    ip2 = Interp(repo, ctx.types, no_inline=(GS, "nasim.scenarios:load_scenario"))
+    s2 = ip2.run(mb)
+    cn2 = Canon(ip2, ctx.layout)
+    from sa.canon import f_implies
+    gens = [ev for ev in s2.events if ev.kind == "call" and ev.data["fname"] == GS]
+    desc = "make_benchmark_scenario stores params['seed'] = seed before generating"
+    if not gens:
+        chk.undecided("C14.no-carry", desc, "no call of generate_scenario found in "
+                      "make_benchmark_scenario", mb.module.path)
+    else:
+        seed_p = ("param", mb.params[1]) if len(mb.params) > 1 else None
+        stores = [ev for ev in s2.events if ev.kind == "store" and ev.data["target"] == "sub"
+                  and ev.data["idx"] == C("seed") and ev.data["value"] == seed_p]
+        ok = True
+        detail = ""
+        for g in gens:
+            gpc = cn2.conj(tuple(c for c in g.pc if c[0] != "fact"))
+            before = [st_ for st_ in stores if st_.seq < g.seq and f_implies(
+                gpc, cn2.conj(tuple(c for c in st_.pc if c[0] != "fact")))]
+            if not before:
+                ok = False
+                detail = (f"generate_scenario at {g.loc} is reached without a preceding "
+                          f"params['seed'] = seed ({len(stores)} such store(s) in the function)")
+        chk.ob("C14.no-carry", desc, ok, detail, mb.module.path)
     chk.assume("NOT decided: bit-identical trajectories across processes additionally need numpy's "
                "generator and float arithmetic to be deterministic (trusted) and no dependence on "
                "process-global layout state (C19)")
